@@ -332,3 +332,172 @@ fn c06_add_border() {
 	}
 	kani::cover!(!b.is_empty() && r > 0 && c.x_max == b.max);
 }
+
+// H6b: count_tiles = width * height, one dimension bounded so the product has no symbolic x symbolic multiplier
+#[kani::proof]
+#[kani::unwind(10)]
+fn c15_h6_count_product() {
+	let b = any_bbox();
+	let tall: bool = kani::any();
+	let (small, big) = if tall { (b.width(), b.height()) } else { (b.height(), b.width()) };
+	kani::assume(small <= 8);
+	// product by repeated addition (at most 8 summands)
+	let mut want: u64 = 0;
+	let mut i = 0;
+	while i < small {
+		want += big as u64;
+		i += 1;
+	}
+	assert!(b.count_tiles() == want);
+	kani::cover!(small == 8 && big > (1u32 << 30));
+}
+
+// H8: iter_coords / into_iter_coords enumerate the box row-major, each tile once (boxes <= 3x3)
+#[kani::proof]
+#[kani::unwind(12)]
+#[kani::stub(std::fmt::format, crate::verif_kani::stubs::fmt_format)]
+#[kani::stub(std::backtrace::Backtrace::capture, crate::verif_kani::stubs::backtrace_capture)]
+fn c15_h8_iter_coords() {
+	iter_coords_body::<3>();
+}
+
+#[kani::proof]
+#[kani::unwind(7)]
+#[kani::stub(std::fmt::format, crate::verif_kani::stubs::fmt_format)]
+#[kani::stub(std::backtrace::Backtrace::capture, crate::verif_kani::stubs::backtrace_capture)]
+fn c15_h8_iter_coords_2x2() {
+	iter_coords_body::<2>();
+}
+
+fn iter_coords_body<const W: u32>() {
+	let b = any_bbox();
+	kani::assume(b.width() <= W && b.height() <= W);
+	let n = b.count_tiles();
+	let mut k: u64 = 0;
+	let mut prev: Option<TileCoord3> = None;
+	for c in b.iter_coords() {
+		assert!(c.z == b.level);
+		assert!(inb(&b, &TileCoord2::new(c.x, c.y)), "iter_coords yields a tile outside the box");
+		let want_x = b.x_min + (k % b.width() as u64) as u32;
+		let want_y = b.y_min + (k / b.width() as u64) as u32;
+		assert!(c.x == want_x && c.y == want_y, "iter_coords is not row-major");
+		if let Some(p) = prev {
+			assert!(p.y < c.y || (p.y == c.y && p.x < c.x));
+		}
+		prev = Some(c);
+		k += 1;
+	}
+	assert!(k == n, "iter_coords yields a different number of tiles than count_tiles");
+	let mut k2: u64 = 0;
+	for c in b.clone().into_iter_coords() {
+		let want_x = b.x_min + (k2 % b.width().max(1) as u64) as u32;
+		let want_y = b.y_min + (k2 / b.width().max(1) as u64) as u32;
+		assert!(c.x == want_x && c.y == want_y && c.z == b.level);
+		k2 += 1;
+	}
+	assert!(k2 == n);
+	kani::cover!(n == (W * W) as u64 && b.level == 31);
+	kani::cover!(n == 0 && b.x_min <= b.x_max);
+}
+
+// H7s: index <-> coordinate for boxes up to 8x8 at any position / level
+#[kani::proof]
+#[kani::unwind(2)]
+#[kani::stub(std::fmt::format, crate::verif_kani::stubs::fmt_format)]
+#[kani::stub(std::backtrace::Backtrace::capture, crate::verif_kani::stubs::backtrace_capture)]
+fn c15_h7_index_small() {
+	let b = any_bbox();
+	kani::assume(b.width() <= 8 && b.height() <= 8);
+	let p = any_coord2();
+	match ok(b.get_tile_index2(&p)) {
+		Some(i) => {
+			assert!(inb(&b, &p));
+			let want = (p.y - b.y_min) as u64 * (b.width() as u64) + (p.x - b.x_min) as u64;
+			assert!(i as u64 == want, "get_tile_index2 is not row-major");
+			let q = ok(b.get_coord2_by_index(i as u32)).unwrap();
+			assert!(q == p, "get_coord2_by_index is not the inverse of get_tile_index2");
+			let q3 = ok(b.get_coord3_by_index(i as u32)).unwrap();
+			assert!(q3.x == p.x && q3.y == p.y && q3.z == b.level);
+			assert!(ok(b.get_tile_index3(&q3)) == Some(i));
+		}
+		None => assert!(!inb(&b, &p)),
+	}
+	let i: u32 = kani::any();
+	match ok(b.get_coord2_by_index(i)) {
+		Some(q) => {
+			assert!((i as u64) < b.count_tiles());
+			assert!(inb(&b, &q));
+			assert!(ok(b.get_tile_index2(&q)) == Some(i as usize));
+		}
+		None => assert!((i as u64) >= b.count_tiles()),
+	}
+	let z: u8 = kani::any();
+	if z != b.level {
+		assert!(ok(b.get_tile_index3(&TileCoord3 { x: p.x, y: p.y, z })).is_none());
+	}
+	kani::cover!(inb(&b, &p) && b.width() == 8 && p.y > b.y_min && p.x > b.x_min);
+}
+
+// H9: iter_bbox_grid(SIZE) is a partition of the box into SIZE-aligned cells.
+// SIZE concrete per instance (division by a constant); box position/level symbolic; the box spans at most 2 cells per axis.
+fn grid_partition<const SIZE: u32, const WX: u32, const WY: u32>() {
+	let b = any_bbox();
+	kani::assume(b.width() <= WX && b.height() <= WY);
+	let p = any_coord2();
+	let mut hits = 0u32;
+	let mut cells = 0u32;
+	for cell in b.iter_bbox_grid(SIZE) {
+		cells += 1;
+		assert!(!cell.is_empty(), "grid cell is empty");
+		assert!(cell.level == b.level && valid_bbox(&cell));
+		assert!(cell.x_min >= b.x_min && cell.x_max <= b.x_max && cell.y_min >= b.y_min && cell.y_max <= b.y_max, "grid cell leaves the box");
+		assert!(cell.x_min / SIZE == cell.x_max / SIZE && cell.y_min / SIZE == cell.y_max / SIZE, "grid cell crosses an aligned boundary");
+		if inb(&cell, &p) {
+			hits += 1;
+		}
+	}
+	if inb(&b, &p) {
+		assert!(hits == 1, "a tile of the box is not in exactly one grid cell");
+	} else {
+		assert!(hits == 0, "a tile outside the box is in a grid cell");
+	}
+	if b.is_empty() {
+		assert!(cells == 0, "empty box yields grid cells");
+	}
+	kani::cover!(cells == 2);
+	kani::cover!(b.is_empty() && b.x_min <= b.x_max);
+}
+
+macro_rules! grid {
+	($name:ident, $size:expr, $wx:expr, $wy:expr, $unw:expr) => {
+		#[kani::proof]
+		#[kani::unwind($unw)]
+		#[kani::stub(std::fmt::format, crate::verif_kani::stubs::fmt_format)]
+		#[kani::stub(std::backtrace::Backtrace::capture, crate::verif_kani::stubs::backtrace_capture)]
+		#[kani::stub(u32::pow, crate::verif_kani::stubs::u32_pow)]
+		fn $name() {
+			grid_partition::<$size, $wx, $wy>();
+		}
+	};
+}
+grid!(c15_h9_grid_s1_2x1, 1, 2, 1, 4);
+grid!(c15_h9_grid_s1_1x2, 1, 1, 2, 4);
+grid!(c15_h9_grid_s2_2x1, 2, 2, 1, 4);
+grid!(c15_h9_grid_s2_1x2, 2, 1, 2, 4);
+grid!(c15_h9_grid_s256_256x1, 256, 256, 1, 4);
+grid!(c15_h9_grid_s256_1x256, 256, 1, 256, 4);
+grid!(c15_h9_grid_s2_2x2, 2, 2, 2, 6);
+
+// H9z: size 0 yields nothing
+#[kani::proof]
+#[kani::unwind(3)]
+fn c15_h9_grid_zero() {
+	let b = any_bbox();
+	let mut n = 0;
+	for _ in b.iter_bbox_grid(0) {
+		n += 1;
+	}
+	assert!(n == 0);
+	kani::cover!(!b.is_empty());
+}
+
